@@ -287,11 +287,8 @@ def h7(led, rid, ctx):
             leaves(e.c, acc)
         elif e.k == "cast":
             leaves(e.b, acc)
-        elif e.k == "call" and e.a.name in ("max", "min") and len(e.b) == 2:
-            leaves(e.b[0], acc)
-            leaves(e.b[1], acc)
         elif e.k != "const":
-            acc.add(show(e))
+            acc.add(show(e))      # min(..) / max(..) of several quantities count as one quantity
         return acc
     OPS = {"Lt": lambda a, b: a < b, "Le": lambda a, b: a <= b, "Gt": lambda a, b: a > b, "Ge": lambda a, b: a >= b}
     n = 0
@@ -314,7 +311,7 @@ def h7(led, rid, ctx):
                 if not rf or rf[0] not in OPS:
                     continue
                 gl = leaves(rf[1], set()) | leaves(rf[2], set())
-                if not (gl and gl <= (ls | le) and (gl & ls) and (gl & le)):
+                if not (gl and gl <= (ls | le) and len(gl) == 2):
                     continue
                 names = sorted(ls | le)
                 n += 1
@@ -324,6 +321,8 @@ def h7(led, rid, ctx):
 
                     def leaf(x):
                         x = peel(x, calls=None)
+                        if show(x) in env:
+                            return env[show(x)]
                         if x.k == "call" and x.a.name in ("max", "min") and len(x.b) == 2:
                             a_, b_ = ev(x.b[0], leaf), ev(x.b[1], leaf)
                             return max(a_, b_) if x.a.name == "max" else min(a_, b_)
